@@ -7,6 +7,7 @@ CONSTANTS
   Policy = "schedule"
   InitBudget = 4
   Growth = 2
+  Mutators <- MutAll
   MarksInBlacken = FALSE
   KeepHist = TRUE
 VIEW viewSafety
